@@ -4,6 +4,7 @@
 
 mod absgraph;
 mod c04;
+mod c06;
 mod ids;
 mod util;
 
@@ -17,6 +18,7 @@ fn main() {
             0
         }
         "c04" => c04::run(&rest),
+        "c06" => c06::run(&rest),
         _ => {
             eprintln!("usage: echo-verif <ids|c04|...> args");
             2
